@@ -274,39 +274,65 @@ func runEntries(r *Rng, o *Out, st *hrs.Strs, nWorlds int, hist Hist, caseJSON m
 			for i := 0; i < 6-dec; i++ {
 				unit *= 10
 			}
+			// Outputs are pairwise distinct BY CONSTRUCTION: output i goes to address i mod 5, and
+			// within one address the amounts (i/5+1 .. units, or random for <= 5 outputs) differ;
+			// the last output takes the rest, which is larger than every other amount.
 			var touts []coin.TransactionOutput
 			cl, hl := C, H-feeH+hoursExtra
+			nAddr := nk.NKeys - 1
 			for i := 0; i < nout; i++ {
-				c, h := cl, hl
-				if i < nout-1 {
+				c := uint64(i/nAddr+1) * unit
+				if nout <= nAddr {
 					c = (1 + r.U64()%1000) * unit
 					if dec > 0 && c%(unit*10) == 0 {
 						c += unit // really uses the last allowed decimal
 					}
-					if c >= cl {
-						c = unit
-					}
-					h = hl / uint64(nout-i)
 				}
-				touts = append(touts, coin.TransactionOutput{Address: w.Addrs[i%(nk.NKeys-1)], Coins: c, Hours: h})
+				// stop early when the rest would not stay above every amount handed out so far
+				margin := unit
+				if nout > nAddr {
+					margin = uint64(nout/nAddr+2) * unit
+				}
+				if i == nout-1 || cl < c+margin {
+					touts = append(touts, coin.TransactionOutput{Address: w.Addrs[i%nAddr], Coins: cl, Hours: hl})
+					break
+				}
+				h := hl / uint64(nout-i)
+				touts = append(touts, coin.TransactionOutput{Address: w.Addrs[i%nAddr], Coins: c, Hours: h})
 				cl -= c
 				hl -= h
 			}
 			if wrapOut && len(touts) >= 2 {
 				touts[0].Hours, touts[1].Hours = 1<<63, 1<<63
 			}
-			// many outputs to one of five addresses: make them pairwise distinct by their hours / coins
-			seen := map[coin.TransactionOutput]bool{}
-			last := len(touts) - 1
-			for i := 0; i < last; i++ {
-				for k := 0; (seen[touts[i]] || touts[i] == touts[last]) && k < 100000; k++ {
-					touts[i].Coins += unit
-					touts[last].Coins -= unit
+			{
+				seen := map[coin.TransactionOutput]bool{}
+				for _, t := range touts {
+					if seen[t] {
+						return nil, fmt.Errorf("generator produced duplicate outputs (kind %s)", kind)
+					}
+					seen[t] = true
 				}
-				seen[touts[i]] = true
 			}
 			txn := w.BuildTxn(hs, touts, nk.TxOpts{})
 			size, eSize := txn.Size()
+			// the checks that precede the coin / hour rules (structure, signatures, duplicate
+			// outputs) enter the model as data, as in the other groups
+			var pre error
+			if Guard(func() {
+				pre = txn.Verify()
+				if pre == nil {
+					pre = txn.VerifyInputSignatures(ins)
+				}
+				if pre == nil && coin.CreateUnspents(head.Head, txn).HasDupes() {
+					pre = errors.New("Duplicate output in transaction")
+				}
+			}) {
+				pre = errors.New("structural checks panicked")
+			}
+			if pre != nil {
+				hist.Add("entry:pre=" + hrs.Name(pre))
+			}
 
 			var insC, outsC, fi, fo []string
 			for _, ux := range ins {
@@ -315,7 +341,7 @@ func runEntries(r *Rng, o *Out, st *hrs.Strs, nWorlds int, hist Hist, caseJSON m
 			}
 			for _, x := range txn.Out {
 				outsC = append(outsC, fmt.Sprintf("mkOut %d %d", x.Coins, x.Hours))
-				fo = append(fo, fmt.Sprintf("%d:%d:0", x.Coins, x.Hours))
+				fo = append(fo, fmt.Sprintf("%d:%d:%d", x.Coins, x.Hours, addrID(x.Address)))
 			}
 			obs := make([]string, 3)
 			show := make([]string, 3)
@@ -359,11 +385,11 @@ func runEntries(r *Rng, o *Out, st *hrs.Strs, nWorlds int, hist Hist, caseJSON m
 			}
 			for entry := 0; entry < 3; entry++ {
 				cases = append(cases, Tuple(Z(uint64(entry)), Tuple(Z(uint64(size)), st.OptErr(hrs.Name(eSize))), Z(T),
-					List(insC), List(outsC), distCoq, Tuple(coqVP(tr.user), coqVP(tr.unc), coqVP(tr.cb)), obs[entry]))
+					List(insC), List(outsC), distCoq, Tuple(coqVP(tr.user), coqVP(tr.unc), coqVP(tr.cb)), st.OptErr(hrs.Name(pre)), obs[entry]))
 				m := map[string]interface{}{"entry": []string{"InjectUserTransaction", "InjectForeignTransaction", "CreateBlockFromTxns"}[entry],
 					"kind": kind, "T": fmt.Sprint(T), "ins": strings.Join(fi, ","), "outs": strings.Join(fo, ","), "size": fmt.Sprint(size),
 					"user_params": showVP(tr.user), "unconfirmed_params": showVP(tr.unc), "create_block_params": showVP(tr.cb),
-					"input_hours": fmt.Sprint(H), "obs": show[entry]}
+					"input_hours": fmt.Sprint(H), "pre": hrs.Name(pre), "obs": show[entry]}
 				caseJSON["entry"] = append(caseJSON["entry"], m)
 				o.Count(fmt.Sprint("entry", entry, k, m["ins"], m["outs"]), true)
 				hist.Add(fmt.Sprintf("entry%d:%s", entry, strings.SplitN(show[entry], "=", 2)[0]))
